@@ -119,7 +119,7 @@ def execute(items, stages, needs, tag, jobs=16, timeout=900):
                 m = model.get('e%d' % tid[t]); r.model['S25'] = m
                 a = r.impl.get('frags') or ''
                 if (r.impl.get('cells') or '').startswith('cells '):
-                    if m is None or m != svgtree.cut(a, ('A', 'G')): r.div.append('S25')
+                    if m is None or svgtree.cut(m, ('A', 'G')) != svgtree.cut(a, ('A', 'G')): r.div.append('S25')
                 elif 'S1' not in stages: r.div.append('S25')
     for r in uniq:
         if 'S6' in stages:
